@@ -47,9 +47,9 @@ ASSUMPTIONS = [
     "the sat-mode precondition of get-value is enforced by the reference solver, not by the Coq spec; generated histories query values only after a sat answer",
     "Int verdicts are relative to the range -4..4 for free symbols",
 ]
-RULE = ("histories: (a) Coq refutation witnesses, (b) all user-legal histories up to length 3 (thorough: 4) over a 12-call alphabet, "
+RULE = ("histories: (a) Coq refutation witnesses, (b) user-legal histories over a 13-call alphabet: all up to length 2 + a sample of length 3 (thorough: all up to length 4), "
         "(c) random histories in the proved fragment (one-level push/pop, no reset, value queries last), (d) random histories with one hazard class each "
-        "(value queries anywhere / get_model at any depth / push,pop with n in 0..2 / reset_assertions), (e) factory one-shot shortcuts; "
+        "(value queries anywhere / get_model at any depth / push,pop with n in 0..3 / reset_assertions / value query on an unasserted symbol), (e) factory one-shot shortcuts; "
         "distinct = distinct (history, formulas) inputs")
 
 # ------------------------------------------------------------------------------------------
@@ -343,13 +343,19 @@ class Ideal(object):
         if k in ("get_value", "get_model"):
             if not self.sat_mode:
                 return False
-            if k == "get_value":
-                live = self.live_syms()
-                if self.pending:
-                    for ss in self.pending["syms"]:
-                        live |= ss
-                return syms(call[1]) <= live
         return True
+
+    def queryable(self, term):
+        """The theorems' side condition on value queries: only symbols of live assertions."""
+        live = self.live_syms()
+        if self.pending:
+            for ss in self.pending["syms"]:
+                live |= ss
+        return syms(term) <= live
+
+    def declared(self):
+        d = set().union(*[l["decl"] for l in self.levels])
+        return d | (self.pending["decl"] if self.pending else set())
 
     def step(self, call, symset=None):
         """Returns the expected return value (verdict) for solving calls, else None.
@@ -428,6 +434,8 @@ def random_history(rnd, cls):
             sort = rnd.choice(["Bool", SYM_SORT[sub[0]]])
             t = ("var", sub[0]) if rnd.random() < 0.5 else gen_term(rnd, SYM_SORT[sub[0]] if sort != "Bool" else "Bool", sub, 2)
             call = (k, t)
+            if not ideal.queryable(t):
+                continue
         else:
             call = (k,)
         if not ideal.legal(call):
@@ -435,14 +443,14 @@ def random_history(rnd, cls):
         ideal.step(call)
         h.append(call)
     # tail: value queries (legal in every class when the last check said sat)
-    if cls in ("fragment", "multi", "reset", "modeldepth", "values", "mixed"):
-        if cls == "fragment":
+    if cls in ("fragment", "multi", "reset", "modeldepth", "values", "mixed", "valuefree"):
+        if cls in ("fragment", "valuefree"):
             # get_model is proved complete only at depth 0 without a pending level; go there
             while ideal.depth() > 0:
                 call = ("pop", 1)
                 ideal.step(call)
                 h.append(call)
-        if not ideal.sat_mode or (cls == "fragment" and ideal.pending is not None):
+        if not ideal.sat_mode or (cls in ("fragment", "valuefree") and ideal.pending is not None):
             call = ("solve",)
             ideal.step(call)
             h.append(call)
@@ -452,16 +460,21 @@ def random_history(rnd, cls):
                 if live:
                     x = rnd.choice(live)
                     call = ("get_value", ("var", x) if rnd.random() < 0.6 else gen_term(rnd, SYM_SORT[x], [x], 1))
-                    if ideal.legal(call):
+                    if ideal.legal(call) and ideal.queryable(call[1]):
                         ideal.step(call)
                         h.append(call)
+            if cls == "valuefree":
+                free = [n for n, _ in POOL if n not in ideal.declared()]
+                if free:
+                    h.append(("get_value", ("var", rnd.choice(free))))
+                    return h
             if rnd.random() < 0.8:
                 h.append(("get_model",))
     return h
 
 
 ENUM_ALPHABET = [("add", ("var", "b0")), ("add", ("or", ("var", "b1"), ("not", ("var", "b0")))), ("push", 1), ("push", 2),
-                 ("pop", 1), ("pop", 2), ("solve",), ("get_value", ("var", "b0")), ("get_model",), ("reset",),
+                 ("pop", 1), ("pop", 2), ("solve",), ("get_value", ("var", "b0")), ("get_value", ("var", "b2")), ("get_model",), ("reset",),
                  ("is_sat", ("var", "b1")), ("is_valid", ("var", "b0"))]
 
 
@@ -495,6 +508,7 @@ WITNESSES = [
     ("push2_witness", [("push", 2), ("pop", 1), ("pop", 1), ("add", X)]),
     ("redeclare_witness", [("push", 1), ("push", 1), ("pop", 2), ("add", X), ("push", 2), ("pop", 1), ("pop", 1), ("add", X)]),
     ("reset_witness", [("add", X), ("reset",), ("add", X)]),
+    ("value_witness", [("add", X), ("solve",), ("get_value", Y)]),
     ("model_witness", [("add", X), ("push", 1), ("add", Y), ("solve",), ("get_model",)]),
     ("model_witness_pending", [("add", X), ("is_sat", Y), ("get_model",)]),
 ]
@@ -871,6 +885,8 @@ def diagnose(h, obs, fails):
                                       exactly the live symbols declared below the top level;
       reset-keeps-declaration-record  the solver rejects the use of a symbol that was declared before
                                       a reset_assertions and not re-declared since;
+      get-value-undeclared-symbol     get_value(t) where t mentions a symbol that no live (simplified)
+                                      assertion mentions: it is sent undeclared, the solver rejects it;
       push-pop-n-records-one-level    unknown-symbol / already-declared error or IndexError after a
                                       push(n)/pop(n) with n != 1."""
     if not fails:
@@ -909,7 +925,10 @@ def diagnose(h, obs, fails):
                 return None
             if rep.startswith('(error "unknown symbol'):
                 name = rep.split(":", 1)[1].strip().rstrip(')').rstrip('"').strip().strip("|")
-                if ideal.reset_seen and name in ideal.declared_before_reset:
+                if (ill[0].get("cmd") or "").startswith("(get-value") and e["type"] == "PysmtSyntaxError" \
+                        and h[e["at"]][0] == "get_value" and name in syms(h[e["at"]][1]) and name not in ideal.declared():
+                    keys.append("get-value-undeclared-symbol")
+                elif ideal.reset_seen and name in ideal.declared_before_reset:
                     keys.append("reset-keeps-declaration-record")
                 elif ideal.multi:
                     keys.append("push-pop-n-records-one-level")
@@ -1103,15 +1122,15 @@ def run(tier):
         jobs.append((h, "incremental"))
         tags.append("witness:" + name)
     enum = enumerated_histories(3 if tier == "quick" else 4)
-    if tier == "quick" and len(enum) > 1400:
+    if tier == "quick" and len(enum) > 600:
         short = [h for h in enum if len(h) <= 2]
         long_ = [h for h in enum if len(h) > 2]
-        enum = short + rnd.sample(long_, 1400 - len(short))
+        enum = short + rnd.sample(long_, 600 - len(short))
     for h in enum:
         jobs.append((h, "incremental"))
         tags.append("enum")
-    nrand = {"fragment": 500, "values": 150, "modeldepth": 100, "multi": 200, "reset": 120, "mixed": 130} if tier == "quick" else \
-            {"fragment": 6000, "values": 1500, "modeldepth": 800, "multi": 2500, "reset": 1200, "mixed": 2000}
+    nrand = {"fragment": 400, "values": 120, "modeldepth": 100, "multi": 160, "reset": 100, "mixed": 100, "valuefree": 40} if tier == "quick" else \
+            {"fragment": 6000, "values": 1500, "modeldepth": 800, "multi": 2500, "reset": 1200, "mixed": 2000, "valuefree": 300}
     for cls, n in nrand.items():
         for _ in range(n):
             jobs.append((random_history(rnd, "fragment" if cls == "modeldepth" and False else cls), "incremental"))
